@@ -1,6 +1,6 @@
 (* C08 - Service tasks are stopped at teardown before anything they may depend on. *)
 From Coq Require Import List Bool Arith.
-From Asphalt Require Import Conc.Service Conc.ServiceProofs Conc.ServiceFuel.
+From Asphalt Require Import Conc.Service Conc.ServiceProofs Conc.ServiceFuel Td.Lifecycle Gen.Gen_lifecycle.
 Import ListNotations.
 
 (* For every set of service tasks (any teardown action and behaviour), every program of
@@ -55,3 +55,11 @@ Theorem C08_fuel_suffices : forall SV prog gs,
   let '(s, tr) := run_gates SV prog (init SV prog) [] gs in settled SV s.
 Proof. exact fuel_suffices. Qed.
 Print Assumptions C08_fuel_suffices.
+
+(* the root context's task group, which hosts every service task, is left only after all teardown
+   callbacks -- the finalizers of the service tasks among them -- have run, and inside
+   coalesce_exceptions *)
+Theorem C08_group_left_after_callbacks :
+  unwinding false = [E_teardown_callbacks; E_task_group; E_coalesce; E_reset_current].
+Proof. exact unwinding_root. Qed.
+Print Assumptions C08_group_left_after_callbacks.
